@@ -562,6 +562,12 @@ package keeper
 
 //@ func Keeper.FilterValidators pure
 //@ ensures [frame] S == old(S) && E == old(E) && X == old(X)
+//@ loop 1 invariant [idx] 0 <= _i && _i <= len(bondedValidators)
+//@ loop 1 invariant [bounded] len(nextValidators) <= _i
+//@ loop 1 step [earlier-kept] len(nextValidators) >= prev(len(nextValidators)) && (forall j int :: 0 <= j && j < prev(len(nextValidators)) ==> nextValidators[j] == prev(nextValidators[j]))
+//@ loop 1 step [accepted-appended] val.GetConsAddr().1 == nil && ok ==> len(nextValidators) == prev(len(nextValidators)) + 1 && $CreateConsumerValidator.called && $CreateConsumerValidator.consumerId == consumerId && $CreateConsumerValidator.validator == val && $CreateConsumerValidator.ret1 == nil && nextValidators[len(nextValidators) - 1] == $CreateConsumerValidator.ret0
+//@ loop 1 step [rejected-skipped] val.GetConsAddr().1 != nil || !ok ==> len(nextValidators) == prev(len(nextValidators)) && !$CreateConsumerValidator.called
+//@ ensures [at-most-the-candidates] len(result0) <= len(bondedValidators)
 
 //@ func Keeper.PartitionBasedOnPriorityList pure
 //@ ensures [frame] S == old(S) && E == old(E) && X == old(X)
